@@ -115,6 +115,8 @@ func (dm *DagModifier) WriteAt(b []byte, offset int64) (int, error) {
 			return 0, err
 		}
 		dm.writeStart = uint64(offset)
+		// the write below continues from the new position
+		dm.curWrOff = uint64(offset)
 	}
 
 	return dm.Write(b)
